@@ -6,3 +6,6 @@ import PvModel.Props.C17
 #print axioms Pv.C17_times_signs
 #print axioms Pv.C17_lte_bounds
 #print axioms Pv.C17_lte_narrow
+#print axioms Pv.C17_no_solution_lost
+#print axioms Pv.C17_fail_means_unsat
+#print axioms Pv.C17_unify_exact
